@@ -672,6 +672,13 @@ func (r *rateLimiter) cleanupUnknownCondition() {
 	}
 
 	for upstream, _ := range upstreamsToDelete {
+		// Only the leader of the upstream's shard removes it. A store of a shard whose leadership was just lost is
+		// still registered until the next leaderCheck; with the API-backed store DeleteUpstream would delete the
+		// persisted conditions, which belong to the new leader by now.
+		if shardId := util.GetShardID(upstream, r.shardCount); !r.leaderElector.IsLeader(shardId) {
+			klog.Errorf("Skip delete upstream %s, leader of shard %v is %v", upstream, shardId, r.leaderElector.GetLeaders()[shardId])
+			continue
+		}
 		for _, limitStore := range r.limitStores() {
 			err := limitStore.DeleteUpstream(upstream)
 			if err != nil {
